@@ -263,7 +263,10 @@ def _strategy():
              'reloadconfig', 'numwatchers', 'globaloptions']))
         n = draw(names)
         if cmd == 'add':
-            p = {"name": draw(st.sampled_from(['new', 'N2'])),
+            # (the last one: a lone surrogate, legal in JSON text, which no
+            # encoding can put on the event channel)
+            p = {"name": draw(st.sampled_from(['new', 'N2', 'new', 'N2',
+                                               'x\ud800'])),
                  "cmd": "prog --wid $(circus.wid)",
                  "start": draw(st.booleans())}
             if draw(st.booleans()):
